@@ -303,3 +303,13 @@ func Watch(ptr interface{}, name string)            { notNative("Watch") }
 func RacyLocations() int                            { notNative("RacyLocations"); return 0 }
 func AssertLockDiscipline()                         { notNative("AssertLockDiscipline") }
 func DeliverLateAnswers() int                       { notNative("DeliverLateAnswers"); return 0 }
+
+func Parallel(fs ...func()) {
+	var wg sync.WaitGroup
+	for _, f := range fs {
+		wg.Add(1)
+		go func(f func()) { defer wg.Done(); f() }(f)
+	}
+	wg.Wait()
+}
+func Scheduler(budget int) {}
